@@ -11,27 +11,6 @@ from vlib import Broken
 
 LEVEL = "proof"
 
-# findings that also belong to other properties (C09 / C13); the lines are proposed for
-# known_findings.jsonl — until they are merged there this module supplies them itself
-PENDING_KNOWN = [
-    {"status": "known", "property": "C08", "key": "div-zero",
-     "what": "const A = 1 / 0 is rejected with a ZeroDivisionError traceback, not with a parser error citing file "
-             "and line (same defect as C09/C13 div-zero)",
-     "class": {"site": "parser.p_calculation_expression_divide", "cond": "divisor evaluates to 0"},
-     "witness": "corpus/C08/div_zero.json"},
-    {"status": "known", "property": "C08", "key": "import-in-message",
-     "what": "an import statement inside a message is rejected with an AttributeError traceback "
-             "(p_message_item_unsupported uses p[0]), not with ImportInMessageUnsupported citing file and line",
-     "class": {"site": "parser.p_message_item_unsupported", "cond": "import item in message scope"},
-     "witness": "corpus/C08/import_in_message.json"},
-    {"status": "known", "property": "C08", "key": "import-in-enum-location",
-     "what": "an import statement inside an enum is rejected with ImportInEnumUnsupported citing the IMPORTED file, "
-             "line 0, instead of the importing file and the line of the import statement",
-     "class": {"site": "parser.p_enum_item_unsupported", "cond": "import item in enum scope (from_token of a Proto)"},
-     "witness": "corpus/C08/import_in_enum.json"},
-]
-
-
 def P(*items, name="rootp"):
     return {name + ".bitproto": [["proto", None, name]] + list(items)}
 
@@ -243,23 +222,23 @@ def catalogue_cases():
     return out
 
 
-def in_known_class_cases():
-    """inside the regions of the listed findings (separate small stream)"""
+def fixed_finding_cases():
+    """regressions of the three fixed findings (fix: ba6c9a1, 5271e56), with the NEW outcome"""
     out = []
     c = ["const", None, "ZA", ["expr", ["div", ["int", 1], ["int", 0]]]]
-    out.append(dict(files=P(c), key="div-zero", rule="division by zero in a constant expression"))
+    out.append(dict(files=P(c), code=33, node=c, file="rootp.bitproto", rule="fixed: division by zero in a constant expression"))
     c2 = ["const", None, "ZB", ["expr", ["div", ["int", 7], ["sub", ["ref", ["ZA"]], ["int", 3]]]]]
-    out.append(dict(files=P(["const", None, "ZA", ["expr", ["int", 3]]], M("Mm", fld(S(["bool"]))), c2),
-                    key="div-zero", rule="division by zero through a constant"))
+    out.append(dict(files=P(["const", None, "ZA", ["expr", ["int", 3]]], M("Mm", fld(S(["bool"]))), c2), code=33, node=c2,
+                    file="rootp.bitproto", rule="fixed: division by zero through a constant"))
     lib = {"zlib.bitproto": [["proto", None, "zlib"]]}
-    f = P(M("Mm", fld(S(["bool"])), ["import", None, None, "zlib.bitproto"]))
+    imp = ["import", None, None, "zlib.bitproto"]
+    f = P(M("Mm", fld(S(["bool"])), imp))
     f.update(lib)
-    out.append(dict(files=f, key="import-in-message", rule="import inside a message"))
+    out.append(dict(files=f, code=22, node=imp, file="rootp.bitproto", rule="fixed: import inside a message"))
     imp = ["import", None, None, "zlib.bitproto"]
     f = P(["enum", None, "Ee", ["uint", 3], [["efield", None, "ZA", 0], imp]])
     f.update(lib)
-    out.append(dict(files=f, key="import-in-enum-location", rule="import inside an enum", code=26,
-                    file="rootp.bitproto", node=imp))
+    out.append(dict(files=f, code=26, node=imp, file="rootp.bitproto", rule="fixed: import inside an enum"))
     return out
 
 
@@ -275,16 +254,14 @@ def gen_stream(ck, n_trees, n_mut, n_double):
             info = fm.mutate(files, rng, which=fm.Mut.ALL[(i * n_mut + j) % len(fm.Mut.ALL)] if j == 0 else None)
             if info is None:
                 continue
-            if info.get("crash"):
-                continue                      # class of a listed finding: separate stream
             info["origin"] = f"mutant#{i}.{j}:{info['mutator']}"
             cases.append(info)
         for j in range(n_double):
             a = fm.mutate(files, rng)
-            if a is None or a.get("crash"):
+            if a is None:
                 continue
             b = fm.mutate(a["files"], rng)
-            if b is None or b.get("crash"):
+            if b is None:
                 continue
             b.update(code=None, node=None, origin=f"double#{i}.{j}:{a['mutator']}+{b['mutator']}",
                      rule=f"two violations ({a['rule']}; {b['rule']})", trad=bool(a.get("trad")) or bool(b.get("trad")))
@@ -297,9 +274,6 @@ def run(ck):
     ck.coverage["trusted_base"] = ["Coq 8.16.1 kernel + vm_compute", "tools/translate_front.py",
                                    "tools/front_gen.py printer + ply tokenizer/LALR driver (text <-> tree)",
                                    "tools/run_front.py + CPython 3.12", "no axioms (Print Assumptions: closed)"]
-    for kf in PENDING_KNOWN:
-        if not any(k.get("key") == kf["key"] for k in ck.known):
-            ck.known.append(kf)
     fs.ensure_model_translation()
     ck.try_prove("C08.v", model_vo=("theories/Front.vo", "theories/Spec.vo"))
 
@@ -307,7 +281,7 @@ def run(ck):
     for j in fs.load_corpus("C08"):
         specs.append(dict(files=j["files"], code=j.get("expect_code"), node=None, rule=j.get("rule", "corpus"),
                           file=j.get("expect_file"), line=j.get("expect_line"), trad=bool(j.get("trad")),
-                          origin="corpus:" + os.path.basename(j["_path"]), key=j.get("key"), texts=j.get("texts")))
+                          origin="corpus:" + os.path.basename(j["_path"]), texts=j.get("texts")))
     n_corpus = len(specs)
     for b in boundary_cases():
         b["origin"] = "boundary:" + b["rule"]
@@ -316,11 +290,8 @@ def run(ck):
         b["origin"] = b["rule"]
         specs.append(b)
     n_boundary = len(specs) - n_corpus
-    for k in in_known_class_cases():
-        k.setdefault("code", None)
-        k.setdefault("node", None)
-        k.setdefault("file", None)
-        k.update(trad=False, origin="inside-known-class:" + k["rule"])
+    for k in fixed_finding_cases():
+        k.update(trad=False, origin=k["rule"])
         specs.append(k)
     specs.extend(gen_stream(ck, fs.scaled(ck.n(40, 700)), ck.n(7, 8), ck.n(1, 2)))
 
@@ -330,7 +301,7 @@ def run(ck):
         files = s["files"]
         root = next(iter(files))
         try:
-            texts = s.get("texts") or fg.render(files, rng, fg.Trivia() if i % 4 else fg.PLAIN)
+            texts = s.get("texts") or fg.render(files, rng, fg.Trivia() if (i % 4 and s.get("line") is None) else fg.PLAIN)
             if s.get("texts"):
                 fg.render(files, random.Random(0), fg.PLAIN)
         except ValueError:
@@ -357,11 +328,10 @@ def run(ck):
         dist[s.get("mutator", s["origin"].split(":")[0])] = dist.get(s.get("mutator", s["origin"].split(":")[0]), 0) + 1
         replay = {"files": c.files, "texts": c.texts, "root": c.root, "trad": c.trad, "origin": c.origin,
                   "rule": s.get("rule"), "observed": {k: o.get(k) for k in ("code", "cls", "file", "line", "msg")}}
-        # --- property: a rejection is a ParserError citing file+line; crash = finding
-        if o["code"] in (22, 36, 97, 98):
-            key = s.get("key") or ("div-zero" if o["code"] == 36 else "import-in-message" if o["code"] == 22 else None)
+        # --- property: a rejection is a ParserError citing file+line, never a traceback
+        if o["code"] in (36, 97, 98):
             ck.violation(f"the compiler rejected a schema with a {o['cls']} traceback instead of a parser error "
-                         f"citing file and line ({s.get('rule')})", replay, found_input=True, key=key)
+                         f"citing file and line ({s.get('rule')})", replay, found_input=True)
         # --- tie: model vs implementation
         if code != 0:
             n_tie += 1
@@ -380,7 +350,7 @@ def run(ck):
                 replay["expected"] = {"code": s["code"], "file": exp_file, "line": exp_line}
                 ck.violation(f"{s.get('rule')}: expected kind {s['code']} at {exp_file}:{exp_line}, the compiler "
                              f"reported {o['cls'] or 'acceptance'} at {o['file']}:{o['line']}", replay,
-                             found_input=True, key=s.get("key"))
+                             found_input=True)
         # --- CLI: exit status, stderr, no output file on rejection
         if "cli" in r:
             cli = r["cli"]
@@ -394,14 +364,13 @@ def run(ck):
                 bad = f"exit status {cli['rc']} for an accepted schema: {cli['stderr'][-200:]}"
             elif not rejected and not cli["outfiles"]:
                 bad = "no file generated for an accepted schema"
-            elif rejected and 1 <= o["code"] <= 34 and o["code"] != 22 and o["line"] > 0 \
+            elif rejected and 1 <= o["code"] <= 34 and o["line"] > 0 \
                     and f"{o['file']}:L{o['line']}" not in cli["stderr"]:
                 bad = f"stderr does not cite {o['file']}:L{o['line']}: {cli['stderr'][-200:]}"
             if bad:
                 n_cli += 1
                 replay["cli"] = cli
-                ck.violation("CLI: " + bad, replay, found_input=True,
-                             key=s.get("key") if o["code"] in (22, 36) else None)
+                ck.violation("CLI: " + bad, replay, found_input=True)
 
     cov = ck.coverage
     cov["evaluations"] = len(cases)
